@@ -86,6 +86,20 @@ func runC16(c *Ctx) {
 	actCons := m.fieldOf("hal", "managedDevices", "activeConsole")
 	actTTY := m.fieldOf("hal", "managedDevices", "activeTTY")
 	actDrv := m.fieldOf("hal", "managedDevices", "activeDrivers")
+	if onDrv == nil && actTTY != nil {
+		// folded into probe as a function literal (or renamed): by role, the hal
+		// function that records the active terminal
+		var found []*ssa.Function
+		for _, fs := range m.storesToField(actTTY) {
+			if fs.Fn.Pkg == m.pkg("hal") && fs.Fn != probe && !containsFn(found, fs.Fn) {
+				found = append(found, fs.Fn)
+			}
+		}
+		if len(found) == 1 {
+			onDrv = found[0]
+			m.anchor(onDrv)
+		}
+	}
 	driverList := m.lookupFunc("device", "DriverList")
 	less := m.lookupMethod("device", "DriverInfoList", "Less")
 	lenM := m.lookupMethod("device", "DriverInfoList", "Len")
@@ -644,4 +658,13 @@ func runC16(c *Ctx) {
 			}
 		}
 	}
+}
+
+func containsFn(l []*ssa.Function, f *ssa.Function) bool {
+	for _, x := range l {
+		if x == f {
+			return true
+		}
+	}
+	return false
 }
